@@ -27,13 +27,18 @@ def main():
             caught = "n/a: neutralised by a later repository fix (its demonstration passes with the patch applied)"
         hist = (m.get("history") or "").replace("|", "/")
         r = ROUND.get(sid[-1], 0)
-        s = stats.setdefault(r, [0, 0])
+        s = stats.setdefault(r, [0, 0, 0, 0])
         s[0] += 1
-        s[1] += bool(m.get("caught_by")) or m.get("still_breaks_property") is False or bool(m.get("disputed"))
+        if m.get("caught_by"):
+            s[1] += 1
+        elif m.get("disputed"):
+            s[3] += 1
+        elif m.get("still_breaks_property") is False:
+            s[2] += 1
         shown = hist if (r == 1 or hist.startswith("missed at first") or hist.startswith("not reported") or hist.startswith("missed by")) else ""
         rows.append(f"| {sid} | {r} | {title} | {caught} | {shown} |")
     head = "| change | round | what it does (author's title) | caught by (quick tier, current checks) | strengthening it took (where recorded per change) |\n|---|---|---|---|---|\n"
-    summary = "; ".join(f"round {r}: {c} of {n} caught" for r, (n, c) in sorted(stats.items()))
+    summary = "; ".join(f"round {r}: {c} of {n} caught" + (f", {z} neutralised by a later repair" if z else "") + (f", {d} disputed" if d else "") for r, (n, c, z, d) in sorted(stats.items()))
     block = f"{BEGIN}\n\nCurrent state ({summary}):\n\n{head}" + "\n".join(rows) + f"\n\n{END}"
     p = f"{HERE}/DESIGN.md"
     s = open(p).read()
